@@ -1905,6 +1905,12 @@ enum RStepH {
     /// the shutdown token): apply the ops, then start `shutdown()` (poll it once: the token is cancelled); the script
     /// waits for that publish
     CancelInSink(Vec<Op>),
+    /// `reporter.clone()` (kept)
+    CloneHandle,
+    /// drop the most recent kept clone of the reporter handle
+    DropHandle,
+    /// continue on a clone of the `MetricRecorder`, dropping the handle used so far
+    SwapRecorder,
 }
 
 /// `reporter <emit_zero> <ct|mt> <interval ms> <step>… [| <step>…]`: one reporter (own recorder, own sink) per script;
@@ -1925,6 +1931,9 @@ impl ReporterCase {
             RStepH::Op(o) => o.enc(),
             RStepH::Yield => "y".to_string(),
             RStepH::Sleep(ms) => format!("s{ms}"),
+            RStepH::CloneHandle => "k".to_string(),
+            RStepH::DropHandle => "x".to_string(),
+            RStepH::SwapRecorder => "r".to_string(),
             RStepH::CancelInSink(ops) => format!("K({})", ops.iter().map(|o| o.enc()).collect::<Vec<_>>().join(",")),
         };
         format!(
@@ -1952,6 +1961,12 @@ impl ReporterCase {
             for t in part.split_whitespace() {
                 sc.push(if t == "y" {
                     RStepH::Yield
+                } else if t == "k" {
+                    RStepH::CloneHandle
+                } else if t == "x" {
+                    RStepH::DropHandle
+                } else if t == "r" {
+                    RStepH::SwapRecorder
                 } else if let Some(inner) = t.strip_prefix("K(").and_then(|x| x.strip_suffix(')')) {
                     let ops: Option<Vec<Op>> = inner.split(',').filter(|x| !x.is_empty()).map(Op::dec).collect();
                     RStepH::CancelInSink(ops?)
@@ -2047,11 +2062,20 @@ async fn run_reporter_script(ez: bool, interval_ms: u64, script: &[RStepH]) -> R
         .metrics_publish_interval(std::time::Duration::from_millis(interval_ms))
         .metrics_rs_version::<dyn metrics::Recorder>()
         .build_without_installing();
-    *sink.reporter.lock().unwrap() = Some((reporter.clone(), rec.clone()));
+    // (the sink's own copy of the handle exists only while a `K(..)` is armed: a `MetricReporter` may be freely cloned
+    // and dropped, and this stage must see what a dropped clone does)
+    let mut rec = rec;
+    let mut clones: Vec<metrique_metricsrs::MetricReporter> = vec![];
     let mut handles = Handles::default();
     let mut applied: Vec<Op> = vec![];
     for (i, st) in script.iter().enumerate() {
         match st {
+            RStepH::CloneHandle => clones.push(reporter.clone()),
+            RStepH::DropHandle => drop(clones.pop()),
+            RStepH::SwapRecorder => {
+                let next = rec.clone();
+                drop(std::mem::replace(&mut rec, next));
+            }
             RStepH::Op(op) => {
                 apply(&rec, &mut handles, op, i);
                 sink.log.lock().unwrap().push('u');
@@ -2061,6 +2085,7 @@ async fn run_reporter_script(ez: bool, interval_ms: u64, script: &[RStepH]) -> R
             RStepH::Sleep(ms) => tokio::time::sleep(std::time::Duration::from_millis(*ms)).await,
             RStepH::CancelInSink(ops) => {
                 sink.k_done.store(false, Ordering::SeqCst);
+                *sink.reporter.lock().unwrap() = Some((reporter.clone(), rec.clone()));
                 *sink.armed.lock().unwrap() = Some(ops.clone());
                 // wait for the publish that carries it out (bounded: a task that has already ended never publishes again)
                 let wait = async {
@@ -2079,7 +2104,19 @@ async fn run_reporter_script(ez: bool, interval_ms: u64, script: &[RStepH]) -> R
             }
         }
     }
-    reporter.shutdown().await;
+    // shut down on a surviving handle: the original, or (every other script with clones) a clone after the original
+    // has been dropped; the other clones are dropped while that shutdown is being awaited / after it
+    if script.len() % 2 == 1 && !clones.is_empty() {
+        let survivor = clones.pop().unwrap();
+        drop(reporter);
+        let rest = std::mem::take(&mut clones);
+        let (_, _) = tokio::join!(survivor.shutdown(), async move {
+            tokio::task::yield_now().await;
+            drop(rest);
+        });
+    } else {
+        reporter.shutdown().await;
+    }
     *sink.reporter.lock().unwrap() = None;
     let mut got = std::mem::take(&mut *sink.entries.lock().unwrap());
     let published = got.len();
@@ -2150,7 +2187,7 @@ fn reporter_task_trace(c: &ReporterCase) -> Option<String> {
     let (mut started, mut now, mut next_tick) = (false, 0u64, 0u64);
     let iv = c.interval_ms;
     for st in &c.scripts[0] {
-        if !matches!(st, RStepH::Op(_)) && !started {
+        if matches!(st, RStepH::Yield | RStepH::Sleep(_) | RStepH::CancelInSink(_)) && !started {
             // the spawned task is polled for the first time when the script first suspends
             tr.push("t0");
             started = true;
@@ -2158,6 +2195,9 @@ fn reporter_task_trace(c: &ReporterCase) -> Option<String> {
         }
         match st {
             RStepH::Op(_) => tr.push("u"),
+            RStepH::CloneHandle => tr.push("k"),
+            RStepH::DropHandle => tr.push("x"),
+            RStepH::SwapRecorder => {}
             RStepH::Yield => {}
             RStepH::Sleep(ms) => {
                 let end = now + ms;
@@ -2231,6 +2271,21 @@ fn gen_reporter_case(rng: &mut Rng, i: usize) -> ReporterCase {
                 if rng.chance(1, 3) {
                     sc.push(RStepH::Yield);
                 }
+            }
+        }
+        // handles are cloned and dropped at arbitrary points of the run (before the first poll, between publishes, …)
+        if i % 2 == 1 {
+            for _ in 0..rng.range(1, 3) {
+                let at = rng.below(sc.len() as u64 + 1) as usize;
+                sc.insert(at, RStepH::CloneHandle);
+                if rng.chance(2, 3) {
+                    let at2 = rng.range(at as u64 + 1, sc.len() as u64) as usize;
+                    sc.insert(at2, RStepH::DropHandle);
+                }
+            }
+            if rng.chance(1, 3) {
+                let at = rng.below(sc.len() as u64 + 1) as usize;
+                sc.insert(at, RStepH::SwapRecorder);
             }
         }
         // sometimes the shutdown starts right after a periodic publish, with updates in that window
@@ -2542,6 +2597,13 @@ fn main() {
                 let last = rc.scripts[0].iter().rposition(|s| matches!(s, RStepH::Op(_) | RStepH::CancelInSink(_)));
                 let after = rc.scripts[0].iter().skip(last.map(|l| l + 1).unwrap_or(0)).count();
                 rep.bump(&format!("reporter:suspensions between the last update and shutdown:{}", after.min(2)));
+                let drops = rc.scripts.iter().flatten().filter(|s| matches!(s, RStepH::DropHandle)).count();
+                if drops > 0 {
+                    rep.bump_by("reporter:MetricReporter clones dropped before shutdown", drops as u64);
+                }
+                if rc.scripts.iter().flatten().any(|s| matches!(s, RStepH::SwapRecorder)) {
+                    rep.bump("reporter:MetricRecorder handle cloned, original dropped");
+                }
                 if rc.scripts.iter().flatten().any(|s| matches!(s, RStepH::CancelInSink(_))) {
                     rep.bump("reporter:shutdown started right after a periodic publish");
                 }
